@@ -2041,3 +2041,18 @@ mut(
     "                    pass\n",
     mention=("line of its own",),
 )
+mut(
+    "c06-format-written-but-never-read-again",
+    "C06",
+    "C06.vocab",
+    "cdd/json_schema/utils/parse_utils.py",
+    '''    if _param.pop("format", None) == "date-time" and _param.get("type") == "string":
+        # what the emitter writes for a `datetime`
+        del _param["type"]
+        _param["typ"] = "datetime"
+    elif _param.get("type"):
+''',
+    '''    if _param.get("type"):
+''',
+    mention=("format",),
+)
